@@ -12,7 +12,8 @@ Sampling point. sim_tick = [update blocks] + [dump_vcd, dump_wav, <hooks>] + [ff
 "at the clock edge of cycle t" are what the signals hold when the ff list starts. They are sampled by a reader
 function placed in that list through the VerilogTBGenPass.vtbgen_hooks metadata (runs right after the dump
 functions, before the ff blocks — nothing writes signals in between), and, for every cycle driven through
-sim_tick, a second time through the public API (after sim_eval_combinational(), before sim_tick()); the two
+sim_tick, a second time through the public API (after sim_eval_combinational(), before sim_tick()) when the design is pure RTL
+and the inputs are not poked again after the evaluation; the two
 must agree (otherwise the run stops with an infrastructure error).
 """
 import gc, importlib.util, os, random, re, sys
@@ -40,7 +41,8 @@ TRUSTED = [
   'packing of bitstruct values (first field most significant) is re-implemented in the check; c16_vcdparse.py implements the VCD grammar subset used',
 ]
 ASSUMPTIONS = [
-  'pure RTL designs (no method ports / update_once): the dump function then runs after the update blocks of the tick',
+  'RTL designs; about 30% carry one method port or update_once block, which makes sim_tick skip the update blocks before the edge '
+  '(the dump then sees inputs poked between ticks before the design has reacted); the samples are always taken where the dump is taken',
   'every default value is zero (Bits and bitstructs cannot carry another default), which makes the last_values indexing slip of '
   'dump_vcd_inner harmless (theorem hypothesis QuirkSafe; counterexample quirk_needs_equal_defaults)',
   'the replayed value of a signal in cycle t is read at time 100*t; header lines (before #0) are the file\'s initial values',
@@ -160,7 +162,7 @@ def simulate(ck, case):
   from pymtl3.passes.tracing.PrintTextWavePass import PrintTextWavePass
 
   drng = random.Random(case['dseed'])
-  src, spec = G.generate(drng, case['dseed'], case['depth'], case.get('big', False))
+  src, spec = G.generate(drng, case['dseed'], case['depth'], case.get('big', False), case.get('nonpure'))
   mod, modname = load_module(ck, src, case['dseed'])
   r = Run(); r.src = src; r.spec = spec
   try:
@@ -196,10 +198,17 @@ def simulate(ck, case):
         cur[e] = v
         sig = resolve(top, e)
         sig @= unpack(mod, td, v)
+    # method port / update_once: sim_tick does not re-run the update blocks before the edge, and
+    # sim_eval_combinational() is not available (it raises; on the present tree a NameError from its own message)
+    r.pure = not case.get('nonpure')
     def tick():
       set_inputs()
-      top.sim_eval_combinational()
-      api_samples[len(hook_samples)] = read_all()
+      if r.pure:
+        top.sim_eval_combinational()
+        if case.get('poke') and drng.random() < 0.3:
+          set_inputs()            # poke again after the evaluation, no re-evaluation by the test bench: hook sample only
+        else:
+          api_samples[len(hook_samples)] = read_all()
       top.sim_tick()
     mode = case['reset']
     if mode == 'sim_reset':
@@ -473,6 +482,9 @@ def gen_case(rng, idx, tier):
   case = {'dseed': rng.getrandbits(48), 'depth': depth, 'ncycles': ncyc,
           'reset': rng.choices(['sim_reset', 'manual', 'none'], [5, 2, 3])[0]}
   if big: case['big'] = True
+  q = rng.random()
+  if q < 0.3: case['nonpure'] = rng.choice(['method', 'update_once'])
+  elif q < 0.45: case['poke'] = True
   if ncyc > 4 and rng.random() < 0.1: case['midreset'] = rng.randint(1, ncyc - 1)
   return case
 
@@ -497,6 +509,7 @@ def run_case(ck, case, pending):
   st = ctx['stats'] if ctx else (0, 0, 0, 0)
   ck.count(case, st[0] > 0 and st[1] > 0)
   ck.hist('depth', case['depth']); ck.hist('reset', case['reset'])
+  ck.hist('tick', 'not pure RTL (dump before any update block)' if not r.pure else 'pure RTL, inputs poked again after eval' if case.get('poke') else 'pure RTL')
   ck.hist('cycles', '0' if N == 0 else '1-9' if N < 10 else '10-29' if N < 30 else '30+')
   ck.hist('signals', min(300, (len(r.sigs) // 20) * 20))
   if ctx:
